@@ -2957,6 +2957,10 @@ bounded_affine_image(const Variable var,
                              LESS_OR_EQUAL,
                              ub_expr,
                              denominator);
+    // The previous call may have detected emptiness.
+    if (marked_empty()) {
+      return;
+    }
     if (denominator > 0) {
       refine_no_check(lb_expr <= denominator*var);
     }
@@ -2970,6 +2974,10 @@ bounded_affine_image(const Variable var,
                              GREATER_OR_EQUAL,
                              lb_expr,
                              denominator);
+    // The previous call may have detected emptiness.
+    if (marked_empty()) {
+      return;
+    }
     if (denominator > 0) {
       refine_no_check(denominator*var <= ub_expr);
     }
